@@ -5,6 +5,8 @@ import (
 	"context"
 	"encoding/json"
 	"fmt"
+	"os"
+	"path/filepath"
 	"reflect"
 	"sort"
 	"strings"
@@ -12,6 +14,8 @@ import (
 
 	"github.com/NethermindEth/juno/core"
 	"github.com/NethermindEth/juno/core/felt"
+	"github.com/NethermindEth/juno/db"
+	"github.com/NethermindEth/juno/db/pebblev2"
 	"github.com/NethermindEth/juno/jsonrpc"
 	"github.com/NethermindEth/juno/rpc"
 	rpcv10 "github.com/NethermindEth/juno/rpc/v10"
@@ -162,6 +166,7 @@ type world struct {
 	reverted []*gen.Block
 	l1       *core.L1Head
 	eps      []endpoint
+	dense    bool // additionally read every contract/slot at every block (stateSweep)
 }
 
 func (w *world) head() *gen.Block { return w.chain[len(w.chain)-1] }
@@ -613,37 +618,9 @@ func (w *world) sweep(t *rapid.T) {
 			params []any
 			check  func(where string, r response)
 		}{
-			{"starknet_getNonce", []any{id.id, addr.String()}, func(where string, r response) {
-				ct := st.Contracts[addr]
-				if ct != nil && ct.System && r.code() == codeContractNotFound {
-					c.Label("system-contract-reported-not-found") // tolerated: 0x1/0x2 have no class; both answers occur in practice
-				} else if ct == nil {
-					w.expectCode(where, r, codeContractNotFound)
-				} else if !feltIs(r.Result, &ct.Nonce) {
-					c.Violation("nonce", "%s = %s, state at that block has %s", where, trunc(r.raw), ct.Nonce.String())
-				}
-			}},
-			{"starknet_getClassHashAt", []any{id.id, addr.String()}, func(where string, r response) {
-				ct := st.Contracts[addr]
-				if ct != nil && ct.System && r.code() == codeContractNotFound {
-					c.Label("system-contract-reported-not-found")
-				} else if ct == nil {
-					w.expectCode(where, r, codeContractNotFound)
-				} else if !feltIs(r.Result, &ct.ClassHash) {
-					c.Violation("class-hash-at", "%s = %s, state at that block has %s", where, trunc(r.raw), ct.ClassHash.String())
-				}
-			}},
-			{"starknet_getStorageAt", []any{addr.String(), key.String(), id.id}, func(where string, r response) {
-				ct := st.Contracts[addr]
-				if ct == nil {
-					w.expectCode(where, r, codeContractNotFound)
-				} else {
-					want := ct.Storage[key]
-					if !feltIs(r.Result, &want) {
-						c.Violation("storage-at", "%s = %s, state at that block has %s", where, trunc(r.raw), want.String())
-					}
-				}
-			}},
+			{"starknet_getNonce", []any{id.id, addr.String()}, func(where string, r response) { w.checkNonce(where, r, st, addr) }},
+			{"starknet_getClassHashAt", []any{id.id, addr.String()}, func(where string, r response) { w.checkClassHashAt(where, r, st, addr) }},
+			{"starknet_getStorageAt", []any{addr.String(), key.String(), id.id}, func(where string, r response) { w.checkStorageAt(where, r, st, addr, key) }},
 		} {
 			rs, vs = nil, nil
 			for _, e := range w.eps {
@@ -661,65 +638,11 @@ func (w *world) sweep(t *rapid.T) {
 			}
 			w.versionsAgree(q.method+" "+what, rs, vs)
 		}
-		// v0.10 only: getStorageAt with INCLUDE_LAST_UPDATE_BLOCK. The last update of (addr,key) as of block b is bounded by
-		// the chain: not before the last block <= b whose diff really changes the slot, and it is a block <= b whose diff
-		// mentions the slot (or 0 when none does). No-op writes (same value, zero to a never-written slot) may or may not
-		// count as updates, so only these bounds are asserted.
-		if id.blk != nil {
-			if ct := st.Contracts[addr]; ct != nil {
-				lastReal, mentioned := uint64(0), map[uint64]bool{}
-				hasReal := false
-				for _, b := range w.chain {
-					if b.Num() > id.blk.Num() {
-						break
-					}
-					v, ok := b.SU.StateDiff.StorageDiffs[addr][key]
-					if !ok {
-						continue
-					}
-					mentioned[b.Num()] = true
-					var prev felt.Felt
-					if pc := b.Pre.Contracts[addr]; pc != nil {
-						prev = pc.Storage[key]
-					}
-					if !v.Equal(&prev) {
-						lastReal, hasReal = b.Num(), true
-					}
-				}
-				for _, e := range w.eps {
-					if e.version != "v0_10" || ver(e.version) < id.minV {
-						continue
-					}
-					r := e.call(c, "starknet_getStorageAt", addr.String(), key.String(), id.id, []string{"INCLUDE_LAST_UPDATE_BLOCK"})
-					where := fmt.Sprintf("%s starknet_getStorageAt(%s, %s, %v, [INCLUDE_LAST_UPDATE_BLOCK])", e.version, addr.ShortString(), key.ShortString(), id.id)
-					m, _ := r.Result.(map[string]any)
-					if r.Error != nil || m == nil {
-						c.Violation("storage-at", "%s: %s (the contract exists at that block)", where, trunc(r.raw))
-					}
-					want := ct.Storage[key]
-					if !feltIs(m["value"], &want) {
-						c.Violation("storage-at", "%s: value %v, state at that block has %s", where, m["value"], want.String())
-					}
-					lub, ok := m["last_update_block"].(json.Number)
-					n, perr := lub.Int64()
-					if !ok || perr != nil || n < 0 {
-						c.Violation("storage-last-update", "%s: last_update_block %v is not a block number", where, m["last_update_block"])
-					}
-					got := uint64(n)
-					switch {
-					case got > id.blk.Num():
-						c.Violation("storage-last-update", "%s: last_update_block %d is after the queried block %d", where, got, id.blk.Num())
-					case hasReal && got < lastReal:
-						c.Violation("storage-last-update", "%s: last_update_block %d, but block %d (<= queried block %d) changes the slot", where, got, lastReal, id.blk.Num())
-					case got != 0 && !mentioned[got]:
-						c.Violation("storage-last-update", "%s: last_update_block %d, but the diff of that block does not touch the slot (blocks that do: %v)", where, got, mentioned)
-					case got == 0 && hasReal && lastReal != 0:
-						c.Violation("storage-last-update", "%s: last_update_block 0, but block %d changes the slot", where, lastReal)
-					}
-					if hasReal && want.IsZero() {
-						c.Label("last-update-of-cleared-slot")
-					}
-					c.Label("storage-last-update-read")
+		// v0.10 only: getStorageAt with INCLUDE_LAST_UPDATE_BLOCK
+		if id.blk != nil && st.Contracts[addr] != nil {
+			for _, e := range w.eps {
+				if e.version == "v0_10" {
+					w.checkLastUpdate(e, id, addr, key)
 				}
 			}
 		}
@@ -897,6 +820,9 @@ func (w *world) sweep(t *rapid.T) {
 			w.versionsAgree(method+" "+q.label, rs, vs)
 		}
 	}
+	if w.dense {
+		w.stateSweep(t)
+	}
 }
 
 func ver(v string) int {
@@ -1012,7 +938,7 @@ func keys(m map[string]bool) []string {
 
 func TestPropRPCReadsFollowTheChain(t *testing.T) {
 	stats.Check(t, stats.Budget{Quick: 400, Thorough: 1500},
-		"chain tree (prefix 1-3 + fork F1 1-2 blocks reverted + fork F2 1-3 blocks) on a drawn state backend with an L1 head absent/behind/equal/ahead; the real method tables of API v0.8/v0.9/v0.10 are mounted on jsonrpc servers and queried with JSON text: every read method x block id kinds (number, hash, latest, l1_accepted, one-past-head, reverted hash, random hash), tx hashes (existing, reverted, random), indices in/out of range, (contract, slot), classes; identity-bearing fields compared with the generated chain and the abstract state, error codes 24/29/20/28/27 exactly when the chain lacks the item, finality from the L1 head, route consistency (by index vs by hash), versions agree on shared keys; non-trivial = query through l1_accepted, a reverted hash or a historical block",
+		"chain tree (prefix 1-3 + fork F1 1-2 blocks reverted + fork F2 1-3 blocks) on a drawn state backend and a drawn store (in-memory, or in 2 of 5 cases Pebble v2 on a scratch directory) with an L1 head absent/behind/equal/ahead, in a quarter of the cases served after a restart (new Blockchain and handlers; on Pebble half of those close and reopen the database); the real method tables of API v0.8/v0.9/v0.10 are mounted on jsonrpc servers and queried with JSON text: every read method x block id kinds (number, hash, latest, l1_accepted, one-past-head, reverted hash, random hash), tx hashes (existing, reverted, random), indices in/out of range, (contract, slot), classes; identity-bearing fields compared with the generated chain and the abstract state, error codes 24/29/20/28/27 exactly when the chain lacks the item, finality from the L1 head, route consistency (by index vs by hash), versions agree on shared keys; on every Pebble case and a quarter of the memory cases additionally EVERY block (drawn id form: number, hash, latest, l1_accepted) x EVERY contract (nonce, class hash) x EVERY slot (storage, partly with the last-update block) through a drawn API version, so adjacent contracts/slots whose history records start at different blocks are all read at all blocks; non-trivial = query through l1_accepted, a reverted hash or a historical block (or a per-contract read at a block where the next contract/slot got its first history record while the queried one has none from there on)",
 		func(rt *rapid.T, c *stats.Case) {
 			u := gen.NewUniverse(rt)
 			newState := rapid.Bool().Draw(rt, "newState")
@@ -1031,7 +957,25 @@ func TestPropRPCReadsFollowTheChain(t *testing.T) {
 			for i := 0; i < n2; i++ {
 				f2.Next(rt)
 			}
-			nd := node.New(newState, nil, u.Net)
+			// storage backend: the in-memory store (its iterators filter by prefix whatever bounds were asked for, its snapshots
+			// are copies) or the production store, Pebble v2 on a scratch directory (bounded iterators, real snapshots, batches)
+			var database db.KeyValueStore
+			store, dbPath := "memory", ""
+			if rapid.IntRange(0, 4).Draw(rt, "pebble") < 2 {
+				store = "pebble"
+				dir := pebbleScratch()
+				dbPath = filepath.Join(dir, "db")
+				pdb, err := pebblev2.New(dbPath)
+				if err != nil {
+					stats.HarnessError("pebble open: %v", err)
+				}
+				database = pdb
+				defer func() { _ = database.Close(); os.RemoveAll(dir) }()
+			}
+			c.Label("store:" + store + "/" + map[bool]string{false: "legacy", true: "trie2"}[newState])
+			// every contract x slot x block is read on every Pebble case and on a quarter of the memory cases
+			dense := store == "pebble" || rapid.IntRange(0, 3).Draw(rt, "dense") == 0
+			nd := node.New(newState, database, u.Net)
 			for _, b := range f1.Blocks {
 				if err := nd.Store(b); err != nil {
 					c.Violation("valid-block-rejected", "%v", err)
@@ -1041,7 +985,7 @@ func TestPropRPCReadsFollowTheChain(t *testing.T) {
 			// cases run the whole sweep against the first fork while it is canonical, then revert it
 			eps := newEndpoints(nd)
 			if n1 > 0 && rapid.Bool().Draw(rt, "sweepBeforeReorg") {
-				w1 := &world{c: c, u: u, n: nd, chain: f1.Blocks, eps: eps}
+				w1 := &world{c: c, u: u, n: nd, chain: f1.Blocks, eps: eps, dense: dense}
 				w1.sweep(rt)
 				c.Label("queried-before-the-reorg")
 			}
@@ -1055,7 +999,27 @@ func TestPropRPCReadsFollowTheChain(t *testing.T) {
 					c.Violation("valid-block-rejected", "%v", err)
 				}
 			}
-			w := &world{c: c, u: u, n: nd, chain: f2.Blocks, reverted: f1.Blocks[np:]}
+			// a restart between writing and serving: a new Blockchain (and new handlers) on the same database answers from what
+			// was persisted, not from what the writing instance still holds in memory
+			if rapid.IntRange(0, 3).Draw(rt, "restart") == 0 {
+				if store == "pebble" && rapid.Bool().Draw(rt, "reopenDB") {
+					// the process really ended: the database is closed (the node writes nothing the read methods need at
+					// shutdown) and opened again, so the answers come from the files (WAL replay, flushed tables)
+					if err := database.Close(); err != nil {
+						stats.HarnessError("pebble close: %v", err)
+					}
+					pdb, err := pebblev2.New(dbPath)
+					if err != nil {
+						stats.HarnessError("pebble reopen: %v", err)
+					}
+					database, nd.DB = pdb, pdb
+					c.Label("database-closed-and-reopened")
+				}
+				nd.Reopen()
+				eps = newEndpoints(nd)
+				c.Label("restarted-before-the-sweep")
+			}
+			w := &world{c: c, u: u, n: nd, chain: f2.Blocks, reverted: f1.Blocks[np:], dense: dense}
 			head := len(f2.Blocks) - 1
 			switch rapid.IntRange(0, 3).Draw(rt, "l1pos") {
 			case 1:
@@ -1076,11 +1040,11 @@ func TestPropRPCReadsFollowTheChain(t *testing.T) {
 					stats.HarnessError("SetL1Head: %v", err)
 				}
 			}
-			c.Fp("%v p%d f1:%d f2:%d l1:%v head:%s", newState, np, n1, n2, w.l1, f2.Blocks[head].B.Hash.String())
+			c.Fp("%v %s p%d f1:%d f2:%d l1:%v head:%s", newState, store, np, n1, n2, w.l1, f2.Blocks[head].B.Hash.String())
 			w.eps = eps
 			w.sweep(rt)
 			c.Sample(func() any {
-				return map[string]any{"backend": nd.Backend(), "chain_len": len(w.chain), "reverted": len(w.reverted), "l1": fmt.Sprint(w.l1)}
+				return map[string]any{"backend": nd.Backend(), "store": store, "dense_state_sweep": dense, "chain_len": len(w.chain), "reverted": len(w.reverted), "l1": fmt.Sprint(w.l1)}
 			})
 		})
 }
